@@ -21,6 +21,7 @@
   exclusion is necessary.
 -/
 import ChessVerif.Proofs.TranspClauses
+import ChessVerif.Proofs.TranspSig0
 
 namespace ChessVerif.Props.C15
 open ChessVerif ChessVerif.Model.Transp
@@ -255,5 +256,67 @@ example : match64 0x0000_0006_0005_0004#64 5#16 = some 1 := by decide
 
 /-- The invariant hypothesis of `store_evicts_at_most_one` holds for a reachable table. -/
 example : 0 < ((Table.new 32).run (demoOps.take 5)).size := by decide
+
+/-! ### signature 0 (closes `probe_hit_is_last_store_sig0_full`) -/
+
+/-- **sig0_invariant.**  After any valid operation sequence on a fresh table, in every bucket every
+    lane whose signature is 0 holds the all-zero entry, unless it is the LOWEST lane with signature 0
+    (the one `match64` finds); that lane holds the all-zero entry or the last effective store under
+    (bucket, signature 0). -/
+theorem sig0_invariant (size : Nat) (hsize : ValidSize size) (ops : List Op)
+    (hv : ∀ op, op ∈ ops → op.Valid) :
+    let t := (Table.new size).run ops
+    ∀ b, b < t.size → ∀ i, i < 4 → (t.bucket b).sig i = 0 →
+      (t.bucket b).get i = Entry.zero ∨
+      ((∀ j, j < i → (t.bucket b).sig j ≠ 0) ∧
+        ∃ st, LastStore bucketIx ops t.size b 0 st ∧ Rep ((t.bucket b).get i) st) :=
+  Sig0Inv_run size hsize ops hv
+
+/-- **probe_hit_is_last_store_sig0.**  After any valid operation sequence on a fresh table, a probe
+    of a key whose signature is 0 that hits returns either the all-zero entry (the phantom hit on an
+    empty lane, see `sig0_phantom`) or the most recent effective store under the probed key's bucket
+    and signature 0 — same `LastStore` characterisation, same fields (move included) and same score
+    re-basing as `probe_hit_is_last_store` gives for non-zero signatures. -/
+theorem probe_hit_is_last_store_sig0 (size : Nat) (hsize : ValidSize size) (ops : List Op)
+    (hv : ∀ op, op ∈ ops → op.Valid) (h : BitVec 64) (hs : sigOf h = 0) (e : Entry)
+    (hit : ((Table.new size).run ops).lookUp h = some e) :
+    let t := (Table.new size).run ops
+    e = Entry.zero ∨
+    ∃ st : Stored, LastStore bucketIx ops t.size (bucketIx h t.size) 0 st ∧
+      e.depth = st.depth ∧ e.typ = st.typ ∧ e.gen = st.gen ∧ e.move = st.move ∧
+      e.value = storedValue st.value st.ply ∧
+      ∀ q, (-32640 ≤ st.value ∧ st.value ≤ 32640) → (0 ≤ st.ply ∧ st.ply ≤ 127) → (0 ≤ q ∧ q ≤ 127) →
+        e.valueAt q = rebased st.value st.ply q := by
+  have hinv := (refines size hsize ops hv).choose_spec.2.2
+  rcases (Sig0Inv_run size hsize ops hv).hit hinv.1 h hs e hit with hz | ⟨st, hl, hrep⟩
+  · exact Or.inl hz
+  · exact Or.inr ⟨st, hl, hrep.1, hrep.2.1, hrep.2.2.2.2, hrep.2.2.2.1, hrep.2.2.1,
+      fun q h1 h2 h3 => value_rebase' e _ _ q hrep.2.2.1 h1 h2 h3⟩
+
+/-- The full-strength signature-0 statement left open above holds. -/
+theorem probe_hit_is_last_store_sig0_full_holds : probe_hit_is_last_store_sig0_full := by
+  intro size hsize ops hv h hs e hit
+  rcases probe_hit_is_last_store_sig0 size hsize ops hv h hs e hit with hz | ⟨st, hl, h1, h2, h3, _, h5, _⟩
+  · exact Or.inl hz
+  · exact Or.inr ⟨st, hl, h1, h2, h3, h5⟩
+
+/-- Non-vacuity: the last operation of `demoOps` stores a key with signature 0 … -/
+example : sigOf 0x0000ffffffffffff#64 = 0 := by decide
+
+/-- … both branches of `probe_hit_is_last_store_sig0` occur in a two-bucket table: after a store
+    under signature 0 into bucket 1 a probe of that key returns the stored (non-zero) entry, while a
+    probe of a signature-0 key of bucket 0 returns the phantom. -/
+example : ((Table.new 64).run [.store ⟨0x0000ffffffffffff#64, 9, 5, 1, 0x0777#16, 40, 2⟩]).lookUp
+    0x0000ffffffffffff#64 = some (mkEntry 0x0777#16 40 1 5 2 9) := by decide
+example : ((Table.new 64).run [.store ⟨0x0000ffffffffffff#64, 9, 5, 1, 0x0777#16, 40, 2⟩]).lookUp
+    0x0000000000000001#64 = some Entry.zero := by decide
+example : mkEntry 0x0777#16 40 1 5 2 9 ≠ Entry.zero := by decide
+
+/-- … and after four stores under non-zero signatures filled the bucket, a store under signature 0
+    takes the victim lane; a later non-zero key can evict it again (then the probe misses). -/
+example : ((Table.new 32).run ((demoOps.take 6).drop 2 ++
+    [.store ⟨0x0000ffffffffffff#64, 9, 5, 1, 0x0777#16, 40, 2⟩])).lookUp 0x0000000000000000#64
+    = some (mkEntry 0x0777#16 40 1 5 2 9) := by decide
+
 
 end ChessVerif.Props.C15
